@@ -416,3 +416,87 @@ func (m *Model) StateHash() uint64 {
 	}
 	return h
 }
+
+// Fingerprint is a canonical encoding of the whole state (used as state equality by the
+// linearizability checker).
+func (m *Model) Fingerprint() string {
+	var b []byte
+	put := func(x uint64) {
+		for i := 0; i < 8; i++ {
+			b = append(b, byte(x>>(8*i)))
+		}
+	}
+	keys := make([]string, 0, len(m.committed))
+	for k := range m.committed {
+		keys = append(keys, k)
+	}
+	sort.Strings(keys)
+	// only relative order of stamps matters: renumber them densely
+	stamps := map[uint64]bool{}
+	for _, vs := range m.committed {
+		for _, v := range vs {
+			stamps[v.stamp] = true
+			stamps[v.wstamp] = true
+		}
+	}
+	for _, t := range m.txs {
+		if t.ended {
+			continue
+		}
+		stamps[t.begin] = true
+		for _, ws := range t.writes {
+			for _, w := range ws {
+				stamps[w.stamp] = true
+			}
+		}
+	}
+	order := make([]uint64, 0, len(stamps))
+	for s := range stamps {
+		order = append(order, s)
+	}
+	sort.Slice(order, func(i, j int) bool { return order[i] < order[j] })
+	rank := make(map[uint64]uint64, len(order))
+	for i, s := range order {
+		rank[s] = uint64(i + 1)
+	}
+	for _, k := range keys {
+		b = append(b, k...)
+		b = append(b, 0)
+		vs := m.committed[k]
+		put(uint64(len(vs)))
+		for _, v := range vs {
+			put(rank[v.stamp])
+			put(rank[v.wstamp])
+			put(v.val.ID)
+		}
+	}
+	ids := make([]int, 0, len(m.txs))
+	for id := range m.txs {
+		ids = append(ids, id)
+	}
+	sort.Ints(ids)
+	for _, id := range ids {
+		t := m.txs[id]
+		put(uint64(id))
+		if t.ended {
+			b = append(b, 'E')
+			continue
+		}
+		b = append(b, 'O', byte(t.level))
+		put(rank[t.begin])
+		wk := make([]string, 0, len(t.writes))
+		for k := range t.writes {
+			wk = append(wk, k)
+		}
+		sort.Strings(wk)
+		for _, k := range wk {
+			b = append(b, k...)
+			b = append(b, 0)
+			for _, w := range t.writes[k] {
+				put(rank[w.stamp])
+				put(w.val.ID)
+			}
+		}
+	}
+	return string(b)
+}
